@@ -111,7 +111,8 @@ func (g *gettyClientHandler) OnClose(session getty.Session) {
 }
 
 func (g *gettyClientHandler) OnMessage(session getty.Session, pkg interface{}) {
-	ctx := context.Background()
+	// (a request is answered on the session it arrived on)
+	ctx := WithAsker(context.Background(), session)
 	log.Debug("received message: {%#v}", pkg)
 
 	rpcMessage, ok := pkg.(message.RpcMessage)
